@@ -11,11 +11,16 @@ import itertools
 from common import *  # noqa
 
 PROP = "C02"
-TABLES = ["Whitespace", "C02_Patterns"]
+TABLES = ["Whitespace", "C02_Patterns", "C02_CaseFold"]
 MODELS = [("c02", "Extract/ExC02.v", "run_C02")]
 ALPHA = ["a", "_", ".", " ", "\n", "(", ")", "界"]
 RAND_ALPHA = ["a", "b", "B", "Z", "0", "_", ".", ",", "-", " ", " ", " ", "\n", "\n", "\t", "\r", "\x0b", "\x1c",
               " ", " ", "　", "(", ")", "[", "]", "{", "}", "<", ">", '"', "'", "界", "\U0001F600", "ß"]
+
+sys.path.insert(0, os.path.join(VERIF, "gen"))
+from gen_t_c02 import FOLD_EXTRA  # noqa: cased non-ASCII characters covered by the regenerated fold table
+FOLD_SMALL = ["a", "A", "s", "S", "\u00df", "\u1e9e", "\u017f", "\u0130", "i", "I", "\u0131", "\ufb01", "f",
+              "k", "\u212a", "\u01f0", "\u0390", "\u00e9", "\u00c9", " ", "\n"]
 
 OPNAMES = {1: "views", 2: "translate_index_to_position", 3: "translate_row_col_to_index",
            4: "get_cursor_left_position", 5: "get_cursor_right_position", 6: "get_cursor_up_position",
@@ -225,8 +230,20 @@ def clsat(t, i, WORD):
     return cls(t[i], WORD) if 0 <= i < len(t) else 0
 
 
-def fold(s):
-    return "".join(chr(ord(c) + 32) if "A" <= c <= "Z" else c for c in s)
+_IEQ = {}
+
+
+def ieq(occ, sub):
+    """occ equals sub character-wise under re.IGNORECASE (what find(ignore_case=True) must report)"""
+    if len(occ) != len(sub):
+        return False
+    key = (occ, sub)
+    r = _IEQ.get(key)
+    if r is None:
+        r = _IEQ[key] = _re.fullmatch(_re.escape(sub), occ, _re.IGNORECASE | _re.DOTALL) is not None
+        if len(_IEQ) > 200000:
+            _IEQ.clear()
+    return r
 
 
 def is_word_start(t, i, WORD):
@@ -253,16 +270,18 @@ def balanced(span, l, r):
 
 
 def greedy_occurrences(text, sub, ig):
-    """leftmost non-overlapping occurrences (the empty needle occurs at every offset)"""
-    f = fold if ig else (lambda x: x)
-    text, sub = f(text), f(sub)
-    out, pos = [], 0
+    """leftmost non-overlapping occurrences (the empty needle occurs at every offset); under
+    re.IGNORECASE's character equivalence when ig"""
+    out, pos, m = [], 0, len(sub)
     while pos <= len(text):
-        k = text.find(sub, pos)
+        if ig:
+            k = next((j for j in range(pos, len(text) - m + 1) if ieq(text[j:j + m], sub)), -1)
+        else:
+            k = text.find(sub, pos)
         if k < 0:
             break
         out.append(k)
-        pos = k + max(1, len(sub))
+        pos = k + max(1, m)
     return out
 
 
@@ -418,7 +437,7 @@ def _oracle_op(t, cur, op, res, d):
             return bad
         tgt = cur + r
         occ = t[tgt:tgt + len(sub)]
-        if (fold(occ) != fold(sub)) if ig else (occ != sub):
+        if (not ieq(occ, sub)) if ig else (occ != sub):
             return ("find(%r): the needle does not occur at the reported target %d" % (sub, tgt), "lands")
         if r < 0 or (r == 0 and not ic):
             return ("find: target is not after the cursor", "lands")
@@ -441,7 +460,7 @@ def _oracle_op(t, cur, op, res, d):
             return bad
         tgt = cur + r
         occ = t[tgt:tgt + len(sub)]
-        if (fold(occ) != fold(sub)) if ig else (occ != sub):
+        if (not ieq(occ, sub)) if ig else (occ != sub):
             return ("find_backwards(%r): the needle does not occur at the reported target %d" % (sub, tgt), "lands")
         if tgt + len(sub) > cur:
             return ("find_backwards: match is not before the cursor", "lands")
@@ -452,7 +471,7 @@ def _oracle_op(t, cur, op, res, d):
             return ("find_all(%r): not the leftmost non-overlapping list of all occurrences" % sub, "nth")
         for p in v:
             occ = t[p:p + len(sub)]
-            if not (0 <= p <= n) or ((fold(occ) != fold(sub)) if ig else (occ != sub)):
+            if not (0 <= p <= n) or ((not ieq(occ, sub)) if ig else (occ != sub)):
                 return ("find_all(%r): the needle does not occur at reported position %d" % (sub, p), "lands")
         return None
     if k == 17:
@@ -650,7 +669,7 @@ def ops_for(t, cur, full=True):
     nds += [x.upper() for x in nds if x.upper() != x]
     for nd in nds:
         s = S(nd)
-        cased = any(is_wordch(c) and not c.isdigit() and c != "_" for c in nd)
+        cased = is_cased(nd) and uncased_outside_ascii(t + nd)
         igs = (0, 1) if cased else (0,)
         for ig in igs:
             for cnt in (1, 2, 3):
@@ -698,7 +717,35 @@ def rand_text(rng, maxlen):
 
 
 def uncased_outside_ascii(s):
-    return all(ord(c) < 128 or (c.lower() == c and c.upper() == c) for c in s)
+    """every non-ASCII character is uncased or covered by the regenerated fold table"""
+    return all(ord(c) < 128 or c in FOLD_EXTRA or (c.lower() == c and c.upper() == c and c.casefold() == c) for c in s)
+
+
+def is_cased(s):
+    return any(c.lower() != c or c.upper() != c for c in s)
+
+
+def fold_ops_for(t, cur):
+    """find-family queries with and without ignore_case for the case-folding stratum: needles are the
+    substrings of the text and their upper/lower/swapcase/casefold variants"""
+    subs = set()
+    for i in range(len(t)):
+        for w in (1, 2):
+            x = t[i:i + w]
+            subs.update([x, x.upper(), x.lower(), x.swapcase(), x.casefold()])
+    subs.update(["s", "ss", "i", "fi"])
+    ops = []
+    for nd in sorted(x for x in subs if x and uncased_outside_ascii(x)):
+        sx_ = S(nd)
+        for ig in (0, 1):
+            for cnt in (1, 2):
+                for il in (0, 1):
+                    for ic in (0, 1):
+                        ops.append([14, sx_, il, ic, ig, cnt])
+                    ops.append([15, sx_, il, ig, cnt])
+            ops.append([16, sx_, ig])
+        ops.append([17, sx_])
+    return ops
 
 
 def rand_ops(rng, t, cur, k):
@@ -778,6 +825,23 @@ def gen_groups(chk, dist):
             dist["exhaustive_texts"] += 1
             dist["exhaustive_cases"] += len(g)
             yield g
+    # case-folding stratum: cased non-ASCII letters, including the ones whose casefold() changes length
+    dist["casefold_cases"] = 0
+    fold_full = 2
+    for k in range(1, fold_full + 1):
+        for x in itertools.product(FOLD_SMALL, repeat=k):
+            t = "".join(x)
+            if not thorough and k == 2 and rng.random() >= 0.25:
+                continue
+            g = [[S(t), cur, fold_ops_for(t, cur)] for cur in range(len(t) + 1)]
+            dist["casefold_cases"] += len(g)
+            yield g
+    for _ in range(1500 if thorough else 140):
+        t = "".join(rng.choice(FOLD_SMALL) for _ in range(rng.choice([3, 3, 4, 5, 8])))
+        curs = sorted(set([0, len(t), rng.randint(0, len(t))]))
+        g = [[S(t), cur, fold_ops_for(t, cur)] for cur in curs]
+        dist["casefold_cases"] += len(g)
+        yield g
     # a stratum of the next sizes
     for k, cnt in ((full_n + 1, 900 if thorough else 250), (full_n + 2, 350 if thorough else 80)):
         for _ in range(cnt):
@@ -794,6 +858,66 @@ def gen_groups(chk, dist):
             g.append([S(t), cur, rand_ops(rng, t, cur, rng.randint(4, 24))])
         dist["random_cases"] += len(g)
         yield g
+
+
+# --------------------------------------------------------------------------
+# the line cache as a memo table (Model/C02_Cache.v): operation sequences
+
+CACHE_TEXTS = ["\u03a9", "\u03a9\nab", "\u03a9x\n\ny\n", "\u03a9 \n"]
+CACHE_OPNAMES = {1: "Document()", 2: "lines", 3: "_line_start_indexes", 4: "drop all Documents of the text"}
+
+
+def gen_cache_cases(chk):
+    rng = chk.rng
+    out = []
+    for _ in range(400 if chk.tier == "thorough" else 60):
+        ops = [[rng.choice([1, 2, 2, 3, 3, 4]), S(rng.choice(CACHE_TEXTS))] for _ in range(rng.randint(2, 14))]
+        out.append([-1, ops])
+    # every order of lines / indexes / drop on one text
+    for perm in itertools.permutations([2, 3, 4, 2, 3], 4):
+        out.append([-1, [[1, S(CACHE_TEXTS[1])]] + [[c, S(CACHE_TEXTS[1])] for c in perm]])
+    return out
+
+
+def impl_cache_case(case):
+    import prompt_toolkit.document as m
+    live = {}
+    gc.collect()
+    out = []
+    for code, ts in case[1]:
+        t = unS(ts)
+        val = []
+        if code == 4:
+            live.pop(t, None)
+            gc.collect()
+        else:
+            if code == 1 or t not in live:
+                live.setdefault(t, []).append(m.Document(t, 0))
+            d = live[t][-1]
+            if code == 2:
+                val = [S(l) for l in d.lines]
+            elif code == 3:
+                val = list(d._line_start_indexes)
+            d = None
+        e = m._text_to_document_cache.get(t)
+        flags = [0, 0, 0] if e is None else [1, int(e.lines is not None), int(e.line_indexes is not None)]
+        e = None
+        out.append([val, flags])
+    live.clear()
+    gc.collect()
+    return out
+
+
+def oracle_cache_case(case, res):
+    """cached = recomputed for equal text (theorem C02_cache_transparent)"""
+    for (code, ts), (val, flags) in zip(case[1], res):
+        t = unS(ts)
+        ls = t.split("\n")
+        if code == 2 and val != [S(l) for l in ls]:
+            return ("Document(%r).lines through the shared cache != text.split(newline)" % t, "cache")
+        if code == 3 and val != [sum(len(x) + 1 for x in ls[:j]) for j in range(len(ls))]:
+            return ("Document(%r)._line_start_indexes through the shared cache != recomputed table" % t, "cache")
+    return None
 
 
 # --------------------------------------------------------------------------
@@ -855,6 +979,29 @@ def main(tier):
                     return "Document(%r, %d) op %s%r impl=%r model=%r" % (t, cur, OPNAMES.get(c[2][j][0]), c[2][j][1:], x, y)
         return "Document(%r, %d) impl=%r model=%r" % (t, cur, str(a)[:80], str(m)[:80])
 
+    # the line cache as a memo table: operation sequences on real Documents vs Model/C02_Cache.v
+    ccases = gen_cache_cases(chk)
+    cres, cbad = [], set()
+    for i, c in enumerate(ccases):
+        try:
+            r = with_watchdog(lambda: impl_cache_case(c), 20)
+        except Exception as ex:  # noqa
+            r = [[[], [9, 9, 9]]]
+        cres.append(r)
+        chk.count_case(c, True)
+        bad = oracle_cache_case(c, r)
+        if bad:
+            cbad.add(i)
+            chk.violation("oracle", "%s (operations %r)" % (bad[0], [(CACHE_OPNAMES[k], unS(t)) for k, t in c[1]]),
+                          {"op": "line-cache", "family": bad[1]},
+                          {"cache_case": c, "observed": r, "clause": bad[0],
+                           "how": "see harness/c02.py impl_cache_case"})
+    correspondence(chk, "c02", ccases, cres, lambda c, a, m: {"op": "line-cache"},
+                   describe=lambda c, a, m: "cache operations %r impl=%r model=%r" % (
+                       [(CACHE_OPNAMES.get(k), unS(t)) for k, t in c[1]], a, m),
+                   oracle_failed=lambda i: i in cbad)
+    dist["cache_sequences"] = len(ccases)
+
     for batch in batches(stream, 400000):
         cases, impl_results = [], []
         oracle_bad = set()
@@ -909,7 +1056,7 @@ def main(tier):
     if len(vm_pool) > kq:
         vm_pool = chk.rng.sample(vm_pool, kq)
     pairs = [(c, a) for c, a, _ in vm_pool]
-    bad, logs = vm_crosscheck(PROP, "run_C02", "Model.Document Model.C02_DocQueries", pairs, per_file=60)
+    bad, logs = vm_crosscheck(PROP, "run_C02", "Model.Document Model.C02_DocQueries Model.C02_Run", pairs, per_file=60)
     chk.coverage["vm_compute_crosschecked"] = len(pairs)
     model_bad = set(i for i, (_, _, agrees) in enumerate(vm_pool) if not agrees)
     vm_bad = set(b for b in bad if isinstance(b, int))
@@ -941,6 +1088,15 @@ def main(tier):
 def replay(data):
     from prompt_toolkit.document import Document
     rep = data["replay"]
+    cc = rep.get("cache_case") or (rep.get("case") if rep.get("case") and rep["case"][0] == -1 else None)
+    if cc:
+        r = impl_cache_case(cc)
+        bad = oracle_cache_case(cc, r)
+        for (k, t), x in zip(cc[1], r):
+            print("%s %r -> %r" % (CACHE_OPNAMES.get(k), unS(t), x))
+        m = run_model("c02", [cc])[0]
+        print("oracle: %s; model %s" % (bad[0] if bad else "ok", "agrees" if m == sx_norm(r) else "differs: %r" % (m,)))
+        return 1 if bad else 0
     if "case" in rep:
         t, cur, ops = unS(rep["case"][0]), rep["case"][1], rep["case"][2]
     else:
